@@ -36,9 +36,9 @@ CHECKS = {
     "C15": dict(
         level="model_checking",
         engine="E3-hist",
-        technique="explicit-state search over operation histories of the real Environment (complete history tree + BFS with deduplication on a plain-map reference model and differential merge checks)",
-        text="An alphabet of 33 operations over two template names (add_template borrowed / owned with 7 sources: plain, using a global+filter+test, not compiling, failing at run time, including b, extending b, rendering b from a function on the same thread; remove_template, clear_templates, set_loader with two loaders serving different sources, add/remove filter, test and global, clone and continue on the clone, render, get of a missing name) is explored as the complete unpruned history tree to depth 3 (quick, 3.6e4 histories) / 4 (thorough, 1.2e6) and by breadth-first search over reference-model states (borrowed map, owned map incl. templates memoised from the loader with the source seen at first request, loader, registries) to depth 6/8 with deduplication; at every merge the environment reached by the new history is compared with the one reached by the stored representative. Every transition calls the real API. At every step of every history the observations (get_template + render of each name, twice, on a clone) must equal those of a fresh environment built from the model's contents, an add that fails to compile must leave all observations unchanged, and the same render must give the same result twice.",
-        note="This check covers the histories half of the property (incl. nested renders on the same thread). The schedules half (concurrent renders from a shared environment) is not covered by a registered check yet; see DESIGN.md. Observation runs on a clone so that it does not populate the loader cache.",
+        technique="explicit-state search over operation histories of the real Environment (complete history tree + BFS with deduplication on a plain-map reference model and differential merge checks), and stateless preemption-bounded DFS over thread schedules of concurrent renders on a source-swapped copy of minijinja + memo-map",
+        text="An alphabet of 33 operations over two template names (add_template borrowed / owned with 7 sources: plain, using a global+filter+test, not compiling, failing at run time, including b, extending b, rendering b from a function on the same thread; remove_template, clear_templates, set_loader with two loaders serving different sources, add/remove filter, test and global, clone and continue on the clone, render, get of a missing name) is explored as the complete unpruned history tree to depth 3 (quick, 3.6e4 histories) / 4 (thorough, 1.2e6) and by breadth-first search over reference-model states (borrowed map, owned map incl. templates memoised from the loader with the source seen at first request, loader, registries) to depth 6/8 with deduplication; at every merge the environment reached by the new history is compared with the one reached by the stored representative. Every transition calls the real API. At every step of every history the observations (get_template + render of each name, twice, on a clone) must equal those of a fresh environment built from the model's contents, an add that fails to compile must leave all observations unchanged, and the same render must give the same result twice. Schedules half: tools/gen_swapped.py copies /repo/minijinja and the registry's memo-map with std::sync and thread_local! redirected to shuttle (locks, atomics, per-task thread-locals are scheduling points; Arc and OnceLock stay std), and a depth-first explorer enumerates every schedule with at most k preemptions, k iterated from 0, of 2-3 threads doing 1-2 operations each on one shared Arc<Environment> (render a loader-backed template that includes another, render the included one, read the stored source, render a borrowed template with loop+macro+namespace, a failing render, a render from a serde context with safe/undefined values, a render using tojson), the loader answering with a different source every time it is asked: 113 configurations, 1.5e5 schedules quick (bound 3 for pairs, 2 otherwise); all 2-operation pairs and all 3-thread triples thorough (bound 5 for pairs, 3 otherwise). Oracle on every execution: each observation equals what the final contents of the environment and the observing render's own context give (one version per loader-backed name for the whole execution, no cross-talk, failing renders fail with their own error), no deadlock; a failing schedule is replayed twice before it is reported.",
+        note="Observation in the histories half runs on a clone so that it does not populate the loader cache. Schedules half: shuttle treats atomics as sequentially consistent and does not interleave Arc reference counting; configurations run in worker processes because the swapped crate has shuttle atomics in statics. If the swapped copy of a modified tree does not build, the check says so on stderr and the verdict is that of the histories half alone.",
         design_ref="2/C15",
     ),
     "C20": dict(
